@@ -214,8 +214,10 @@ def shutdown(ctx: Ctx, rule="R-C03-SHUTDOWN") -> None:
     ok = len(cons_names) == 1
     ctx.check(ok, rule, w, "consumers = the consumers returned by run_one_queue", "all started consumers are finished", "the consumers that are finished are not the ones run_one_queue returned", instance="consumers list")
     r1 = ctx.func(f"{C.RUNNER}.run_one_queue")
-    rets = [n for n in ast.walk(r1.node) if isinstance(n, ast.Return)]
-    ctx.check(len(rets) == 1 and dotted(rets[0].value) == "consumer", rule, r1, "run_one_queue returns its consumer", "consumer handed to the worker for finish()", "run_one_queue does not return its consumer", instance="run_one_queue returns consumer")
+    rets = C.own_returns(r1)
+    cons_local = {t.id for n in C.own_nodes(r1) if isinstance(n, ast.Assign) and isinstance(n.value, ast.Call) and isinstance(n.value.func, ast.Attribute) and n.value.func.attr == "get_consumer"
+                  for t in n.targets if isinstance(t, ast.Name)}
+    ctx.check(len(rets) >= 1 and all(dotted(r.value) in cons_local for r in rets), rule, r1, "run_one_queue returns its consumer", "consumer handed to the worker for finish()", "run_one_queue does not return its consumer", instance="run_one_queue returns consumer")
     for name in ("finish_gracefully", "stop_wait_and_cancel"):
         f = ctx.func(f"{C.RUNNER}.{name}")
         gg = ctx.cfg(f)
@@ -236,8 +238,8 @@ def shutdown(ctx: Ctx, rule="R-C03-SHUTDOWN") -> None:
     sl = [c for c in ast.walk(f.node) if isinstance(c, ast.Call) and (dotted(c.func) or "").endswith("asyncio.sleep")]
     ctx.check(len(sl) == 1 and dotted(sl[0].args[0]) == "wait_for", rule, f, "stop_wait_and_cancel sleeps the graceful period", "sleep(wait_for)", "stop_wait_and_cancel does not wait the given period", instance="stop_wait_and_cancel sleep")
     sh = ctx.func(f"{C.WORKER}._register_signals")
-    h = sh.nested.get("signal_handler")
-    ctx.require(h is not None, f"{sh.qualname}: signal_handler not found")
+    h = sh.nested.get("signal_handler") or (list(sh.nested.values())[0] if len(sh.nested) == 1 else None)
+    ctx.require(h is not None, f"{sh.qualname}: signal handler closure not found")
     c = [x for x in ast.walk(h.node) if isinstance(x, ast.Call) and (dotted(x.func) or "").endswith("sync_stop_wait_and_cancel")]
     ctx.check(len(c) == 1 and dotted(c[0].args[0]) == "self.graceful_shutdown_time", rule, h, "signal -> stop, wait the graceful period, cancel", "sync_stop_wait_and_cancel(graceful_shutdown_time)",
               "the signal handler does not start the two-phase shutdown with the graceful period", instance="signal handler")
